@@ -1,4 +1,4 @@
-CONSTANT CHECK_A = FALSE
+CONSTANT CHECK_A = TRUE
 INIT Init
 NEXT Next
 POSTCONDITION TraceAccepted
